@@ -1,5 +1,5 @@
 """C14 -- tracking during a simulation equals analysing the stored fields afterwards."""
-from contracts import trackers as tk, collections as co, parallel as pl
+from contracts import io, trackers as tk, collections as co, parallel as pl
 from pyvc.bounded import Bounded
 
 LEVEL = "proof"
@@ -15,14 +15,18 @@ LEVEL_TEXT = ("With locate_droplets, get_length_scale and extract_field as unint
               "minimal_radius); real solver runs are a bounded stand-in.")
 LEVEL_NOTE = ("A-FP; determinism of locate_droplets / get_length_scale; A-PDE: extract_field, TrackerBase.__init__/finalize do not interfere; "
               "Executor.map contract for the parallel branch of from_storage (C15); that a stored frame equals the field the tracker saw is py-pde's storage contract (bounded); file round trip is C08")
-CONTRACTS = [c.ident for c in (tk.TrackerInit(), tk.TrackerHandle(), tk.TrackerFinalize(), tk.LengthScaleHandle(), co.ETCAppend(), pl.FromStorageBranches())]
-LEMMAS = []
+from pyvc.contract import register as _register
+_register(io.KeyOrderPlain)
+_register(io.KeyOrderLen)
+CONTRACTS = [c.ident for c in (tk.TrackerInit(), tk.TrackerHandle(), tk.TrackerFinalize(), tk.LengthScaleHandle(), co.ETCAppend(), pl.FromStorageBranches(),
+                               io.ETCToFile(), io.ETCFromFile(), io.EmWriteDataset(), io.EmFromDataset())]
+LEMMAS = [io.KeyOrderPlain.name, io.KeyOrderLen.name]
 
 
 class TrackerVsOffline(Bounded):
     name = "tracker-vs-offline-analysis"
     bound = ("direct driving with 12 (quick) / 60 (thorough) synthetic field sequences (1-d/2-d, incl. frames without droplets, times "
-             "including 0 at a non-initial frame and negative times) x 4 setting bundles; 2 (quick) / 6 (thorough) real Cahn-Hilliard-type "
+             "including 0 at a non-initial frame, negative times and non-monotonic / repeated times of a re-used tracker) x 4 setting bundles; 2 (quick) / 6 (thorough) real Cahn-Hilliard-type "
              "solver runs; file written by finalize() read back; LengthScaleTracker on all 3 methods incl. failing analyses")
 
     def run(self, tier, seed):
@@ -56,6 +60,9 @@ class TrackerVsOffline(Bounded):
             if t % 2 and len(times) > 1:
                 times[1] = 0.0
                 times = sorted(set(times))
+            if t % 4 == 2:
+                # a tracker that is re-used for a second run: the times start again (non-monotonic, repeated)
+                times = [0, 1, 2, 0, 1][: max(4, nf)]
             fields = []
             for f in range(len(times)):
                 n = int(rng.integers(0, 3))
